@@ -2,6 +2,8 @@
 in the exact function-value domain and the abstract result of its last call is compared with the abstract
 result of the same call on a freshly constructed object in a fresh interpreter (cold cache).  Equal abstract
 results for a *symbolic* f mean equal results for every f."""
+from fractions import Fraction as Fr
+
 from ..srcmodel import AnalysisError
 from ..algebra import Poly
 from ..ndarr import Arr, InterpRaise
@@ -106,6 +108,13 @@ def setter_scenarios(cls='Derivative', dim=None, tier='quick'):
         out.append(Scenario('%s(order=%d) ; call ; order=%d ; call' % (cls, o1, o2), h, f, 'order setter'))
     h, f = mk('central', n0, 2, [('method', 'forward'), ('method', 'central')], ('central', n0, 2))
     out.append(Scenario('%s(central) ; call ; method=forward ; method=central ; call' % cls, h, f, 'method restore'))
+    if cls == 'Derivative':
+        # the complex-step rules switch between a low and a high order family with n and order
+        for n1, o1, ops, final in ((1, 2, [('n', 3)], (3, 2)), (3, 2, [('n', 1)], (1, 2)), (1, 2, [('order', 4)], (1, 4)),
+                                   (1, 4, [('order', 2)], (1, 2)), (2, 2, [('n', 4)], (4, 2))):
+            h, f = mk('complex', n1, o1, ops, ('complex',) + final)
+            out.append(Scenario('Derivative(complex, n=%d, order=%d) ; call ; %s ; call'
+                                % (n1, o1, ' ; '.join('%s=%d' % op for op in ops)), h, f, 'complex n / order setter'))
     return out
 
 
@@ -289,7 +298,7 @@ def check_cache_seed(rep, repo, rule_id='R-CACHE-SEED'):
     """The rule cache at import time: empty, or every pre-seeded entry is the inverse of the moment matrix of its key."""
     from ..ndarr import concrete_real
     rep.rule(rule_id, 'the process wide rule cache is empty at import or every pre-seeded entry equals '
-             'pinv(_fd_matrix(*key)) (tolerance 1e-6 for decimal literals)', 1)
+             'pinv(_fd_matrix(*key)) up to rounding (1e-12 relative to the summands of W*M; decimal literals)', 1)
     fd = repo.module('finite_difference')
     P = Pipeline(repo)
     P.clear_cache()
@@ -308,11 +317,15 @@ def check_cache_seed(rep, repo, rule_id='R-CACHE-SEED'):
             done = False
             for a in range(n):
                 for b in range(n):
-                    s_ = 0
+                    s_, scale = 0, 0
                     for m in range(n):
                         s_ = s_ + W[a, m] * M[m, b]
+                        t = concrete_real(W[a, m] * M[m, b])
+                        scale = scale + (abs(t) if t is not None else 0)
                     c = concrete_real(s_)
-                    if c is None or abs(c - (1 if a == b else 0)) > 1e-6:
+                    # rounding level: 1e-12 relative to the size of the summands (a 17 digit literal is good to 1e-16,
+                    # a table printed with 9 digits is not an inverse "up to rounding")
+                    if c is None or abs(c - (1 if a == b else 0)) > Fr(1, 10 ** 12) * max(scale, 1):
                         problems.append('%r: seeded entry is not the inverse of its moment matrix: (W*M)[%d,%d] = %r' % (key, a, b, s_))
                         done = True
                         break
